@@ -8,7 +8,7 @@ import re
 from ..core import AnalysisError, where, norm, VERIF
 from ..shapes import u
 from ..srcmodel import walk_no_nested, parent
-from ..x86table import model as x86model
+from ..x86table import model as x86model, RowView
 
 PFX = ('np', '66', 'f2', 'f3')      # order of ia32_arch.mmx_prefixes [0x00, 0x66, 0xF2, 0xF3]
 
@@ -224,8 +224,13 @@ def run(ctx, report):
                                  % (c.row.key(), kstr, name, ent['line'], ent['text']), loc)
                     continue
                 bad = []
+                undefined = []
                 for p, pk in enumerate(PFX):
                     if pk not in ent['names']:
+                        # IA-32 defines no instruction for this opcode with that mandatory prefix: the decoder must reject it
+                        mn = X.mmx_set_suffix(name, p)
+                        if 'INVALID' not in mn and 'REP' not in mn and X.dis_mmx_rejected_early(name, {'np': [], '66': [0x66], 'f2': [0xF2], 'f3': [0xF3]}[pk], row=RowView(c.opc, c.row.afs)) is not True:
+                            undefined.append((pk, mn))
                         continue
                     mn = X.mmx_set_suffix(name, p)
                     if mn not in ent['names'][pk]:
@@ -241,6 +246,9 @@ def run(ctx, report):
                     R1.violation(inst, 'unit:%s:%s' % (kstr, name), 'table row %s at %s: %s (ref line %d: %s)' % (c.row.key(), kstr, '; '.join(bad), ent['line'], ent['text']), loc)
                 else:
                     R1.ok(inst, sample='%s = %s' % (kstr, ent['text'].split(' : ')[1]))
+                for pk, mn in undefined:
+                    R1.violation(inst + ':' + pk, 'unit:%s:%s:undefined-prefix:%s' % (kstr, name, pk), 'table row %s: with mandatory prefix %s the decoder accepts %s as %r; IA-32 defines no '
+                                 'instruction there (ref line %d: %s)' % (c.row.key(), pk, kstr, mn, ent['line'], ent['text']), loc, count=False)
                 continue
             # integer / x87 unit
             if is_mmx:
@@ -698,7 +706,7 @@ def run(ctx, report):
             for pk in PFX:
                 if pk not in ent['names']:
                     continue
-                r = X.dis_mmx_modes(c.name, PBYTES[pk], bool(c.modifs.get(E['sw'])), digit=digit)
+                r = X.dis_mmx_modes(c.name, PBYTES[pk], bool(c.modifs.get(E['sw'])), digit=digit, row=RowView(c.opc, c.row.afs))
                 inst = '%s %s prefix %s' % (kstr, c.name, pk)
                 npname = ent['names'][pk][0]
                 if pk in ent['ops']:
@@ -722,7 +730,7 @@ def run(ctx, report):
                     if swap:
                         msig.reverse()
                 # a segment / lock / address-size prefix must not change the selection
-                r_seg = X.dis_mmx_modes(c.name, [0x64] + PBYTES[pk], bool(c.modifs.get(E['sw'])), digit=digit)
+                r_seg = X.dis_mmx_modes(c.name, [0x64] + PBYTES[pk], bool(c.modifs.get(E['sw'])), digit=digit, row=RowView(c.opc, c.row.afs))
                 if r_seg != r:
                     R5.violation(inst + ':seg', 'ssefile:prefix-sensitive:%s' % pk, 'with an additional segment prefix (64) the decoder selects %s for %s prefix %s instead of %s: the selection compares the '
                                  'whole prefix list instead of the mandatory prefix' % (r_seg, kstr, pk, r), where(arch, chain), witness='64 f3 0f 7e 00 renders movq DWORD PTR fs:[eax], eax')
@@ -818,6 +826,7 @@ def run(ctx, report):
 
 
 MUTANTS = [
+    ('undefined-sse-accepted', 'miasmx/arch/ia32_arch.py', "                if mmx_undefined_form(m, sse_prefix):\n                    return None\n", "", 'C01.D1'),
     ('string-src-ds', 'miasmx/arch/ia32_arch.py', "    for p in prefix:\n        if p in prefix_seg_inv:\n            segm = prefix_seg_inv[p]\n    return segm", "    return segm", 'C01.D8'),
     ('memonly-lea-reg', 'miasmx/arch/ia32_arch.py', "                  'lea', 'lds', 'les', 'lss', 'lfs', 'lgs', 'bound',", "                  'lds', 'les', 'lss', 'lfs', 'lgs', 'bound',", 'C01.D7'),
     ('mmx-admode16-accepted', 'miasmx/arch/ia32_arch.py', "                if self.admode == u16:\n                    # 16-bit addressing of MMX/SSE operands is not", "                if False:\n                    # 16-bit addressing of MMX/SSE operands is not", 'C01.D5'),
